@@ -27,15 +27,17 @@ Lemma enc_items_cons x t : enc_items (x :: t) = enc_item x ++ enc_items t. Proof
 
 Lemma lay1_rsizes h tbl : forall l b off, rsizes (lay1 h tbl b off l) = iszs l.
 Proof.
-  induction l as [|d rest IH|bk k seg fa body rest IHb IH] using items_ind; intros b off; [reflexivity| |].
+  induction l as [|d rest IH|bk k seg fa body rest IHb IH|lk seg fa ta rest IH] using items_ind; intros b off; [reflexivity| | |].
   - rewrite lay1_cons, rsizes_app, IH, iszs_cons. reflexivity.
   - rewrite lay1_cons, rsizes_app, IH, iszs_cons, lay1_blk, isz_blk. cbn [rsizes fold_right]. rewrite !rsize_eq.
     rewrite rsizes_app, leaf_row_rsizes, len_hd_pays. cbn [rsizes fold_right]. rewrite rsize_eq, IHb. lia.
+  - rewrite lay1_cons, rsizes_app, IH, iszs_cons, isz_leaf. cbn [lay1_item rsizes fold_right]. rewrite rsize_eq.
+    fold (rsizes (leaf_row (b + 2 + nlf lk fa) (cst_pays h (ta_off lk off fa) ta))). rewrite !leaf_row_rsizes, len_lhd_pays, len_cst_pays. lia.
 Qed.
 
 Lemma lay1_nodes h tbl : forall l b off x, In x (rnodesl (lay1 h tbl b off l)) -> b <= x < b + N.of_nat (iszs l).
 Proof.
-  induction l as [|d rest IH|bk k seg fa body rest IHb IH] using items_ind; intros b off x Hx; [contradiction| |].
+  induction l as [|d rest IH|bk k seg fa body rest IHb IH|lk seg fa ta rest IH] using items_ind; intros b off x Hx; [contradiction| | |].
   - rewrite lay1_cons, rnodesl_app in Hx. rewrite iszs_cons. apply in_app_or in Hx. destruct Hx as [Hx|Hx].
     + cbn [lay1_item rnodesl flat_map rnodes app In] in Hx. cbn [isz]. lia.
     + apply IH in Hx. cbn [isz] in *. lia.
@@ -46,6 +48,11 @@ Proof.
       * unfold rnodesl in Hx. cbn [flat_map] in Hx. rewrite app_nil_r, rnodes_eq in Hx. unfold nfx in Hx.
         destruct Hx as [<-|Hx]; [lia|]. apply IHb in Hx. lia.
     + apply IH in Hx. rewrite isz_blk in Hx. lia.
+  - rewrite lay1_cons, rnodesl_app in Hx. rewrite iszs_cons, isz_leaf. apply in_app_or in Hx. destruct Hx as [Hx|Hx].
+    + cbn [lay1_item] in Hx. unfold rnodesl in Hx. cbn [flat_map] in Hx. rewrite rnodes_eq in Hx. cbn [app In] in Hx.
+      fold (rnodesl (leaf_row (b + 2 + nlf lk fa) (cst_pays h (ta_off lk off fa) ta))) in Hx. unfold nlf in Hx.
+      destruct Hx as [<-|Hx]; [lia|]. apply in_app_or in Hx. destruct Hx as [Hx|Hx]; apply leaf_row_nodes in Hx; rewrite ?len_lhd_pays, ?len_cst_pays in Hx; lia.
+    + apply IH in Hx. rewrite isz_leaf in Hx. lia.
 Qed.
 
 (** ---- what the first pass does to the forest and the payloads ---- *)
@@ -216,6 +223,56 @@ Proof.
            rewrite (Hoob (b + 2 + N.of_nat nf)) by lia. reflexivity.
   - intros x Hx Hne. rewrite A5 by lia. rewrite HK. destruct (N.eqb_spec x b); [lia|]. apply N.eqb_neq in Hne. rewrite Hne. reflexivity.
   - intros x Hx. rewrite A6 by lia. unfold pl1. apply pget_app_old. exact Hx.
+Qed.
+
+Lemma post1_leaf g pl sc h tbl lk seg fa ta off :
+  sc < N.of_nat (length pl) -> length (g_kids g) = length pl ->
+  Post1 g pl (g_args (g_args (g_head g sc) (N.of_nat (length pl)) (1 + length (lfx lk fa))) sc (length ta))
+        (pl ++ (lf_pay h lk off name_zero :: lhd_pays h tbl lk off fa) ++ cst_pays h (ta_off lk off fa) ta) sc
+        (lay1_item h tbl (N.of_nat (length pl)) off (ILeaf lk seg fa ta)).
+Proof.
+  intros Hsc Hlg. set (b := N.of_nat (length pl)) in *.
+  set (nf := length (lfx lk fa)) in *. set (nt := length ta).
+  set (G1 := g_args (g_head g sc) b (1 + nf)).
+  set (hdp := lhd_pays h tbl lk off fa). set (cs := cst_pays h (ta_off lk off fa) ta).
+  assert (Hlh : length hdp = S nf) by apply len_lhd_pays.
+  assert (Hlc : length cs = nt) by apply len_cst_pays.
+  set (news := (lf_pay h lk off name_zero :: hdp) ++ cs).
+  assert (Hln : length news = (2 + nf + nt)%nat) by (unfold news; rewrite app_length; cbn [length]; rewrite Hlh, Hlc; lia).
+  assert (HlG1 : length (g_kids G1) = (length pl + 2 + nf)%nat) by (unfold G1; rewrite len_g_args, len_g_head, Hlg; lia).
+  assert (Hoob : forall i, b <= i -> kids g i = []) by (intros i Hi; apply kids_oob; rewrite Hlg; exact Hi).
+  assert (HK1 : forall i, kids G1 i = if i =? b then seqN (b + 1) (1 + nf) else if i =? sc then kids g sc ++ [b] else kids g i).
+  { intros i. unfold G1. rewrite kids_g_args by (rewrite len_g_head, Hlg; unfold b; lia). rewrite len_g_head, !kids_g_head by (rewrite Hlg; exact Hsc). rewrite Hlg.
+    destruct (N.eqb_spec i b) as [->|Hib]; [|reflexivity].
+    destruct (N.eqb_spec b sc); [lia|]. rewrite (Hoob b) by lia. cbn [app]. f_equal. unfold b. lia. }
+  assert (HK : forall i, kids (g_args G1 sc nt) i =
+             if i =? sc then kids g sc ++ b :: seqN (b + 2 + N.of_nat nf) nt else if i =? b then seqN (b + 1) (1 + nf) else kids g i).
+  { intros i. rewrite kids_g_args by (rewrite HlG1; lia). rewrite !HK1, HlG1.
+    destruct (N.eqb_spec i sc) as [->|Hisc].
+    - destruct (N.eqb_spec sc b); [lia|]. rewrite N.eqb_refl, <- app_assoc. cbn [app]. f_equal. f_equal. f_equal. unfold b. lia.
+    - destruct (N.eqb_spec i b); reflexivity. }
+  assert (Hp : forall c, pget (pl ++ news) (b + c) = pget news c) by (intros c; unfold b; apply pget_app_new).
+  fold G1 hdp cs nt. change ((lf_pay h lk off name_zero :: hdp) ++ cs) with news.
+  cbn [lay1_item]. fold b hdp cs. unfold nlf. fold nf. constructor.
+  - apply free_g_args. apply free_g_args. reflexivity.
+  - rewrite app_length, Hln. cbn [rsizes fold_right]. rewrite rsize_eq. fold (rsizes (leaf_row (b + 2 + N.of_nat nf) cs)). rewrite !leaf_row_rsizes, Hlh, Hlc. lia.
+  - rewrite HK, N.eqb_refl. cbn [map ridx]. rewrite leaf_row_idx, Hlc. reflexivity.
+  - constructor.
+    + constructor.
+      * rewrite <- (N.add_0_r b). rewrite Hp. reflexivity.
+      * rewrite HK. destruct (N.eqb_spec b sc); [lia|]. rewrite N.eqb_refl, leaf_row_idx, Hlh. reflexivity.
+      * apply leaf_row_desc. intros i p Hi. assert (Hilt : (i < S nf)%nat) by (rewrite <- Hlh; apply nth_error_Some; congruence).
+        split.
+        -- replace (b + 1 + N.of_nat i) with (b + N.of_nat (S i)) by lia. rewrite Hp. unfold pget. rewrite Nat2N.id.
+           unfold news. cbn [app]. rewrite nth_error_S, nth_error_app1 by (rewrite Hlh; lia). exact Hi.
+        -- rewrite HK. destruct (N.eqb_spec (b + 1 + N.of_nat i) sc); [lia|]. destruct (N.eqb_spec (b + 1 + N.of_nat i) b); [lia|]. apply Hoob. lia.
+    + apply leaf_row_desc. intros i p Hi. assert (Hilt : (i < nt)%nat) by (rewrite <- Hlc; apply nth_error_Some; congruence).
+      split.
+      * replace (b + 2 + N.of_nat nf + N.of_nat i) with (b + N.of_nat (S (S nf + i))) by lia. rewrite Hp. unfold pget. rewrite Nat2N.id.
+        unfold news. cbn [app]. rewrite nth_error_S, nth_error_app2 by (rewrite Hlh; lia). rewrite Hlh. replace (S nf + i - S nf)%nat with i by lia. exact Hi.
+      * rewrite HK. destruct (N.eqb_spec (b + 2 + N.of_nat nf + N.of_nat i) sc); [lia|]. destruct (N.eqb_spec (b + 2 + N.of_nat nf + N.of_nat i) b); [lia|]. apply Hoob. lia.
+  - intros x Hx Hne. rewrite HK. apply N.eqb_neq in Hne. rewrite Hne. destruct (N.eqb_spec x b); [lia|reflexivity].
+  - intros x Hx. apply pget_app_old. exact Hx.
 Qed.
 
 (** ---- the first pass over a list of items ---- *)
@@ -424,12 +481,136 @@ Proof.
   rewrite app_nil_r in Hx. apply lay1_nodes in Hx. cbn [iszs fold_right] in Hx. rewrite isz_blk in Hx. fold l nf in Hx. rewrite Hl2. unfold b in *. lia.
 Qed.
 
+(** the constant arguments that follow a leaf object are objects of the enclosing scope *)
+Lemma cst_loop : forall ta fo fi off e t sc ss es g pl pre post a (Q : pres -> pstate -> Prop),
+  Rep t g pl -> g_free g = [] -> N.of_nat (length pl) + N.of_nat (length ta) < InvalidIndex ->
+  data = pre ++ enc_ta ta ++ post -> off = lenN pre -> lenN pre + lenN (enc_ta ta) <= e -> e <= len ->
+  forallb cst_okb ta = true -> pget pl sc = Some a -> y_op a <> opFreed ->
+  (forall t', Rep t' (g_args g sc (length ta)) (pl ++ cst_pays h off ta) ->
+      wp False (list_cont fo (S (S (S fi)))) (st1 (off + lenN (enc_ta ta)) e t' (sc :: ss) (e :: es)) Q) ->
+  wp False (list_cont fo (length ta + S (S (S fi)))) (st1 off e t (sc :: ss) (e :: es)) Q.
+Proof.
+  induction ta as [|d r IH]; intros fo fi off e t sc ss es g pl pre post a Q H Hfree Hroom Hd Ho He Hel Hok Hsc Hlsc K.
+  - cbn [length Nat.add]. specialize (K t). cbn [length g_args cst_pays enc_ta flat_map] in K. rewrite app_nil_r in K.
+    change (lenN (@nil N)) with 0 in K. rewrite N.add_0_r in K. apply K. exact H.
+  - cbn [forallb] in Hok. apply andb_prop in Hok. destruct Hok as [Hdok Hok]. unfold cst_okb in Hdok. apply andb_prop in Hdok.
+    destruct Hdok as [Hc Hv]. apply N.ltb_lt in Hv.
+    cbn [length] in *. unfold enc_ta in Hd, He. cbn [flat_map] in Hd, He. fold (enc_ta r) in Hd, He. subst off.
+    assert (Hsclt : sc < N.of_nat (length pl)) by (eapply pget_lt; eauto).
+    set (s0 := st1 (lenN pre) e t (sc :: ss) (e :: es)).
+    assert (Hat : at_token (p_r s0) pre (enc_op (d_op d) ++ Grammar.le_bytes (const_bytes (d_op d)) (d_v d) ++ enc_ta r) post).
+    { apply mk_at; [ |reflexivity| |exact Hel|exact Hlen|exact Hsmall|exact Hbytes].
+      - rewrite Hd. unfold enc_const. rewrite <- !app_assoc. reflexivity.
+      - rewrite lenN_app in He. unfold enc_const in He. rewrite !lenN_app in *. lia. }
+    replace (S (length r) + S (S (S fi)))%nat with (S (S (S (S (length r + fi))))) by lia.
+    apply wp_list_cont_S. unfold eofM, rq. apply wp_bind, wp_get.
+    assert (Hne : eof (p_r s0) = false).
+    { destruct (enc_op_nonempty (d_op d)) as (x & l & Eop). rewrite Eop in Hat. cbn [app] in Hat. apply (at_not_eof _ _ _ _ _ Hat). }
+    rewrite Hne.
+    apply wp_bind. eapply wp_conseq.
+    { eapply (next_const _ s0 g pl pre (d_op d) (d_v d) (enc_ta r) post sc ss a);
+        [exact H|exact Hfree|lia|exact Hat|exact Hc|exact Hv|reflexivity|exact Hsc|exact Hlsc]. }
+    intros res s1 (-> & t1 & -> & H1). change (pres_eqb ROk ROk) with true. cbv iota.
+    set (pl1 := pl ++ [const_pay s0 (lenN pre) (d_op d) (d_v d)]) in *.
+    set (pre1 := pre ++ enc_const d).
+    assert (Hlp1 : lenN pre1 = lenN pre + lenN (enc_const d)) by (unfold pre1; apply lenN_app).
+    assert (Eoff : lenN pre + lenN (enc_op (d_op d)) + N.of_nat (const_bytes (d_op d)) = lenN pre1) by (rewrite Hlp1, lenN_enc_const; lia).
+    rewrite Eoff. change (with_tree (with_r s0 (set_offset_raw (p_r s0) (lenN pre1))) t1) with (st1 (lenN pre1) e t1 (sc :: ss) (e :: es)).
+    replace (S (S (S (length r + fi)))) with (length r + S (S (S fi)))%nat by lia.
+    eapply (IH fo fi (lenN pre1) e t1 sc ss es _ pl1 pre1 post a Q);
+      [exact H1|reflexivity|unfold pl1; rewrite app_length; cbn [length]; lia| |reflexivity| |exact Hel|exact Hok| |exact Hlsc|].
+    { unfold pre1. rewrite Hd, <- !app_assoc. reflexivity. }
+    { rewrite Hlp1. rewrite lenN_app in He. lia. }
+    { unfold pl1. rewrite pget_app_old by exact Hsclt. exact Hsc. }
+    intros t2 H2. specialize (K t2). cbn [g_args cst_pays] in K. unfold enc_ta in K. cbn [flat_map] in K. fold (enc_ta r) in K.
+    rewrite lenN_app, N.add_assoc, <- Hlp1 in K. apply K.
+    rewrite <- g_args_shift. unfold pl1 in H2. rewrite <- app_assoc in H2. cbn [app] in H2. exact H2.
+Qed.
+
+Lemma ispec_leaf lk seg fa ta rest : ISpec rest -> ISpec (ILeaf lk seg fa ta :: rest).
+Proof.
+  intros IH fo fi off e t sc ss es g pl pre post a R Q H Hfree Hroom Hd Ho He Hel Hok Hbal Hsc Hlsc HR Hfi Hfo K.
+  apply forallb_item_cons in Hok. destruct Hok as [Hd_ok Hok]. cbn [item_okb] in Hd_ok.
+  apply andb_prop in Hd_ok. destruct Hd_ok as [Hx Hta]. apply andb_prop in Hx. destruct Hx as [Hx Hlta]. apply Nat.eqb_eq in Hlta.
+  apply andb_prop in Hx. destruct Hx as [Hx Hfx]. apply andb_prop in Hx. destruct Hx as [Hx Hlfa]. apply Nat.eqb_eq in Hlfa.
+  apply andb_prop in Hx. destruct Hx as [Hlead _].
+  set (l := lfx lk fa) in *. set (nf := length l) in *. set (lo := llo lk) in *. set (nt := length ta) in *.
+  assert (Hws : map fst l = lk_ws lk) by (unfold l, lfx; apply map_fst_combine; lia).
+  rewrite iszs_cons, isz_leaf in Hroom. rewrite icnts_cons, icnt_leaf in Hfi, Hfo. fold l nf nt in Hroom, Hfi, Hfo.
+  rewrite enc_items_cons, enc_leaf in Hd, He. fold l in Hd, He. subst off.
+  pose proof (rep_len_g _ _ _ H) as Hlg. pose proof (rep_len_pool _ _ _ H) as Hlp.
+  assert (Hsclt : sc < N.of_nat (length pl)) by (eapply pget_lt; eauto).
+  assert (Ef : exists f', fi = S (S (S (S (S (nf + S (S (nt + f')))))))) by (exists (fi - nf - nt - 7)%nat; lia). destruct Ef as (f' & ->).
+  set (s0 := st1 (lenN pre) e t (sc :: ss) (e :: es)).
+  assert (HlenI : lenN (enc_op (lk_op lk) ++ seg_bytes seg ++ enc_fx l ++ enc_ta ta) = lo + 4 + lenN (enc_fx l) + lenN (enc_ta ta)).
+  { rewrite !lenN_app. change (lenN (enc_op (lk_op lk))) with lo. change (lenN (seg_bytes seg)) with 4. lia. }
+  rewrite lenN_app, HlenI in He.
+  assert (Hat0 : at_token (p_r s0) pre (enc_op (lk_op lk) ++ seg_bytes seg ++ enc_fx l ++ (enc_ta ta ++ enc_items rest)) post).
+  { apply mk_at; [ |reflexivity| |exact Hel|exact Hlen|exact Hsmall|exact Hbytes].
+    - rewrite Hd. rewrite <- !app_assoc. reflexivity.
+    - rewrite !lenN_app. change (lenN (enc_op (lk_op lk))) with lo. change (lenN (seg_bytes seg)) with 4. lia. }
+  (* the header *)
+  apply wp_list_cont_S. unfold eofM, rq. apply wp_bind, wp_get.
+  assert (Hne : eof (p_r s0) = false).
+  { destruct (enc_op_nonempty (lk_op lk)) as (x0 & l0 & Eop). rewrite Eop in Hat0. cbn [app] in Hat0. apply (at_not_eof _ _ _ _ _ Hat0). }
+  rewrite Hne.
+  apply wp_bind. eapply wp_conseq.
+  { eapply (next_leaf (nt + f') lk s0 g pl pre seg l _ post sc ss a);
+      [exact H|exact Hfree|lia|exact Hat0|exact Hws|exact Hfx|exact Hlead|reflexivity|exact Hsc|exact Hlsc|reflexivity]. }
+  cbv zeta. change (lenN (enc_op (lk_op lk))) with lo. fold nf.
+  intros res s1 (-> & t1 & -> & H1). change (pres_eqb ROk ROk) with true. cbv iota.
+  set (b := N.of_nat (length pl)) in *.
+  set (off1 := lenN pre + lo + 4 + lenN (enc_fx l)).
+  set (pl1 := pl ++ leaf_pays' s0 lk (lenN pre) l) in *.
+  assert (Hpl1 : pl1 = pl ++ lf_pay h lk (lenN pre) name_zero :: lhd_pays h tbl lk (lenN pre) fa) by reflexivity.
+  assert (Hl1 : length pl1 = (2 + nf + length pl)%nat).
+  { rewrite Hpl1, app_length. cbn [length]. rewrite len_lhd_pays. fold l nf. lia. }
+  change (with_tree (with_r s0 (set_offset_raw (p_r s0) off1)) t1) with (st1 off1 e t1 (sc :: ss) (e :: es)).
+  (* the constant arguments *)
+  set (pre1 := pre ++ enc_op (lk_op lk) ++ seg_bytes seg ++ enc_fx l).
+  assert (Hlp1 : lenN pre1 = off1).
+  { unfold pre1, off1. rewrite !lenN_app. change (lenN (enc_op (lk_op lk))) with lo. change (lenN (seg_bytes seg)) with 4. lia. }
+  assert (Hsc1 : pget pl1 sc = Some a) by (rewrite Hpl1, pget_app_old by exact Hsclt; exact Hsc).
+  replace (S (S (S (S (nf + S (S (nt + f'))))))) with (nt + S (S (S (S (S (S (nf + f')))))))%nat by lia.
+  eapply (cst_loop ta fo _ off1 e t1 sc ss es _ pl1 pre1 (enc_items rest ++ post) a Q);
+    [exact H1|apply free_g_args; reflexivity|rewrite Hl1; fold nt; lia| |symmetry; exact Hlp1| |exact Hel|exact Hta|exact Hsc1|exact Hlsc|].
+  { unfold pre1. rewrite Hd, <- !app_assoc. reflexivity. }
+  { rewrite Hlp1. unfold off1. lia. }
+  intros t2 H2.
+  (* the rest *)
+  set (pl2 := pl1 ++ cst_pays h off1 ta) in *.
+  assert (Hpl2 : pl2 = pl ++ (lf_pay h lk (lenN pre) name_zero :: lhd_pays h tbl lk (lenN pre) fa) ++ cst_pays h (ta_off lk (lenN pre) fa) ta).
+  { unfold pl2. rewrite Hpl1, <- app_assoc. reflexivity. }
+  assert (Hl2 : length pl2 = (length pl + 2 + nf + nt)%nat) by (unfold pl2; rewrite app_length, Hl1, len_cst_pays; fold nt; lia).
+  set (pre2 := pre1 ++ enc_ta ta).
+  assert (Hlp2 : lenN pre2 = off1 + lenN (enc_ta ta)) by (unfold pre2; rewrite lenN_app, Hlp1; reflexivity).
+  assert (P01 : Post1 g pl (g_args (g_args (g_head g sc) b (1 + nf)) sc nt) pl2 sc (lay1_item h tbl b (lenN pre) (ILeaf lk seg fa ta))).
+  { rewrite Hpl2. apply post1_leaf; [exact Hsclt|exact Hlg]. }
+  assert (Hsc2 : pget pl2 sc = Some a) by (rewrite (p1_old_p _ _ _ _ _ _ P01) by exact Hsclt; exact Hsc).
+  eapply (IH fo _ (off1 + lenN (enc_ta ta)) e t2 sc ss es _ pl2 pre2 post a R Q);
+    [exact H2|apply free_g_args; apply free_g_args; reflexivity|rewrite Hl2; lia| |symmetry; exact Hlp2| |exact Hel|exact Hok|exact Hbal|exact Hsc2|exact Hlsc|exact HR|lia|lia|].
+  { unfold pre2, pre1. rewrite Hd. rewrite <- !app_assoc. reflexivity. }
+  { rewrite Hlp2. unfold off1. lia. }
+  intros t3 g3 pl3 fo3 fi3 H3 P3 Hfi3 Hfo3.
+  specialize (K t3 g3 pl3 fo3 fi3 H3).
+  rewrite lay1_cons, isz_leaf in K. fold b l nf nt in K.
+  replace (b + N.of_nat (2 + nf + nt)) with (N.of_nat (length pl2)) in K by (rewrite Hl2; unfold b; lia).
+  rewrite enc_items_cons, lenN_app, enc_leaf in K. fold l in K. rewrite HlenI in K.
+  replace (lenN pre + (lo + 4 + lenN (enc_fx l) + lenN (enc_ta ta))) with (off1 + lenN (enc_ta ta)) in K by (unfold off1; lia).
+  replace (lenN pre + (lo + 4 + lenN (enc_fx l) + lenN (enc_ta ta) + lenN (enc_items rest))) with (off1 + lenN (enc_ta ta) + lenN (enc_items rest)) in K by (unfold off1; lia).
+  apply K; [|exact Hfi3|exact Hfo3].
+  eapply Post1_app; [exact Hsclt| |exact P01|exact P3].
+  intros x Hx. assert (Hx' : In x (rnodesl (lay1 h tbl b (lenN pre) [ILeaf lk seg fa ta]))) by (cbn [lay1]; rewrite app_nil_r; exact Hx).
+  clear Hx. rename Hx' into Hx. apply lay1_nodes in Hx. cbn [iszs fold_right] in Hx. rewrite isz_leaf in Hx. fold l nf nt in Hx. rewrite Hl2. unfold b in *. lia.
+Qed.
+
 Theorem ispec_all : forall its, ISpec its.
 Proof.
-  induction its as [|d rest IH|bk k seg fa body rest IHb IH] using items_ind.
+  induction its as [|d rest IH|bk k seg fa body rest IHb IH|lk seg fa ta rest IH] using items_ind.
   - apply ispec_nil.
   - apply ispec_name. exact IH.
   - apply ispec_blk; assumption.
+  - apply ispec_leaf; assumption.
 Qed.
 End ItemsSpec.
 
